@@ -1,43 +1,78 @@
 use crate::fw::*;
+#[cfg(not(feature = "slim"))]
 pub mod c01;
+#[cfg(not(feature = "slim"))]
 pub mod c02;
+#[cfg(not(feature = "slim"))]
 pub mod c03;
+#[cfg(not(feature = "slim"))]
 pub mod c04;
+#[cfg(not(feature = "slim"))]
 pub mod c05;
+#[cfg(not(feature = "slim"))]
 pub mod c07;
+#[cfg(not(feature = "slim"))]
 pub mod c09;
+#[cfg(not(feature = "slim"))]
 pub mod c10;
+#[cfg(not(feature = "slim"))]
 pub mod c11;
+#[cfg(not(feature = "slim"))]
 pub mod c12;
+#[cfg(not(feature = "slim"))]
 pub mod c13;
+#[cfg(not(feature = "slim"))]
 pub mod c14;
+#[cfg(not(feature = "slim"))]
 pub mod c15;
 pub mod c16;
+#[cfg(not(feature = "slim"))]
 pub mod c17;
+#[cfg(not(feature = "slim"))]
 pub mod c18;
+#[cfg(not(feature = "slim"))]
 pub mod c19;
+#[cfg(not(feature = "slim"))]
 pub mod c20;
 
 pub fn run(prop: &str, tier: Tier) -> Report {
     match prop {
+        #[cfg(not(feature = "slim"))]
         "C01" => c01::run(tier),
+        #[cfg(not(feature = "slim"))]
         "C02" => c02::run(tier),
+        #[cfg(not(feature = "slim"))]
         "C03" => c03::run(tier),
+        #[cfg(not(feature = "slim"))]
         "C04" => c04::run(tier),
+        #[cfg(not(feature = "slim"))]
         "C05" => c05::run(tier),
+        #[cfg(not(feature = "slim"))]
         "C06" => c05::run_c06(tier),
+        #[cfg(not(feature = "slim"))]
         "C07" => c07::run(tier),
+        #[cfg(not(feature = "slim"))]
         "C09" => c09::run(tier),
+        #[cfg(not(feature = "slim"))]
         "C10" => c10::run(tier),
+        #[cfg(not(feature = "slim"))]
         "C11" => c11::run(tier),
+        #[cfg(not(feature = "slim"))]
         "C12" => c12::run(tier),
+        #[cfg(not(feature = "slim"))]
         "C13" => c13::run(tier),
+        #[cfg(not(feature = "slim"))]
         "C14" => c14::run(tier),
+        #[cfg(not(feature = "slim"))]
         "C15" => c15::run(tier),
         "C16" => c16::run(tier),
+        #[cfg(not(feature = "slim"))]
         "C17" => c17::run(tier),
+        #[cfg(not(feature = "slim"))]
         "C18" => c18::run(tier),
+        #[cfg(not(feature = "slim"))]
         "C19" => c19::run(tier),
+        #[cfg(not(feature = "slim"))]
         "C20" => c20::run(tier),
         _ => {
             eprintln!("unknown property {prop}");
@@ -47,24 +82,42 @@ pub fn run(prop: &str, tier: Tier) -> Report {
 }
 pub fn replay(prop: &str, _tier: Tier, case: &serde_json::Value) -> Vec<Violation> {
     match prop {
+        #[cfg(not(feature = "slim"))]
         "C01" => c01::replay(case),
+        #[cfg(not(feature = "slim"))]
         "C02" => c02::replay(case),
+        #[cfg(not(feature = "slim"))]
         "C03" => c03::replay(case),
+        #[cfg(not(feature = "slim"))]
         "C04" => c04::replay(case),
+        #[cfg(not(feature = "slim"))]
         "C05" => c05::replay(case),
+        #[cfg(not(feature = "slim"))]
         "C06" => c05::replay_c06(case),
+        #[cfg(not(feature = "slim"))]
         "C07" => c07::replay(case),
+        #[cfg(not(feature = "slim"))]
         "C09" => c09::replay(case),
+        #[cfg(not(feature = "slim"))]
         "C10" => c10::replay(case),
+        #[cfg(not(feature = "slim"))]
         "C11" => c11::replay(case),
+        #[cfg(not(feature = "slim"))]
         "C12" => c12::replay(case),
+        #[cfg(not(feature = "slim"))]
         "C13" => c13::replay(case),
+        #[cfg(not(feature = "slim"))]
         "C14" => c14::replay(case),
+        #[cfg(not(feature = "slim"))]
         "C15" => c15::replay(case),
         "C16" => c16::replay(case),
+        #[cfg(not(feature = "slim"))]
         "C17" => c17::replay(case),
+        #[cfg(not(feature = "slim"))]
         "C18" => c18::replay(case),
+        #[cfg(not(feature = "slim"))]
         "C19" => c19::replay(case),
+        #[cfg(not(feature = "slim"))]
         "C20" => c20::replay(case),
         _ => {
             eprintln!("unknown property {prop}");
@@ -74,10 +127,14 @@ pub fn replay(prop: &str, _tier: Tier, case: &serde_json::Value) -> Vec<Violatio
 }
 pub fn worker(prop: &str, tier: Tier, args: &[String]) -> i32 {
     match prop {
+        #[cfg(not(feature = "slim"))]
         "C03" => crate::pool::child(&c03::C03, tier, args),
+        #[cfg(not(feature = "slim"))]
         "C04" => crate::pool::child(&c04::C04, tier, args),
+        #[cfg(not(feature = "slim"))]
         "C12" => crate::pool::child(&c12::C12, tier, args),
         "C16" => crate::pool::child(&c16::C16, tier, args),
+        #[cfg(not(feature = "slim"))]
         "C18" => crate::pool::child(&c18::C18, tier, args),
         _ => {
             eprintln!("unknown pooled property {prop}");
